@@ -3,7 +3,14 @@
 sys.monitoring LINE events restricted to code objects of the imported labtech
 package, counted in the armed thread of the armed process; at the k-th event
 the configured action happens *at that line of labtech's code*: raise an
-exception, raise KeyboardInterrupt, SIGKILL/SIGTERM the process, or park."""
+exception, SIGKILL/SIGTERM the process, or park.
+
+The 'interrupt' action models a SIGINT that ARRIVES when the main thread reaches line k.  CPython does not run
+signal handlers at arbitrary instructions: the KeyboardInterrupt appears at the interpreter's next eval-breaker
+check (function entry / generator resume, backward jump, return of a call into C).  Raising it at the line start
+itself would manufacture interleavings the program cannot have (e.g. between an `except ...:` clause and the
+`try:` that follows it, where no such check exists), so the injector switches on PY_START / PY_RESUME / JUMP /
+C_RETURN events at arrival and raises KeyboardInterrupt from the first of them that occurs outside harness code."""
 import linecache
 import os
 import signal
@@ -12,6 +19,7 @@ import threading
 import time
 
 TOOL_ID = 4
+_HARNESS_DIR = os.path.dirname(os.path.abspath(__file__)) + os.sep
 
 
 class InjectedFault(OSError):
@@ -45,6 +53,8 @@ class Injector:
         self.pkg_dir = pkg_dir + os.sep
         self.extra_files = tuple(extra_files)
         self.only_extra = only_extra
+        self._pending = None        # site of an interrupt that has arrived and is not delivered yet
+        self.deliveries = {}
 
     def _cb(self, code, line):
         fn = code.co_filename
@@ -79,14 +89,16 @@ class Injector:
                     'func': code.co_name, 'line': line,
                     'text': linecache.getline(fn, line).strip()[:120], 'k': self.k}
             self.fired = site
+            if self.action == 'interrupt':
+                self._pending = site
+                self._delivery_events(True)
+                return None
             if self.on_fire is not None:
                 self.on_fire(site)
             if self.action == 'raise':
                 raise InjectedFault(f'vlab injected fault at {site["file"]}:{site["func"]}:{line}')
             if self.action == 'raise-base':
                 raise InjectedBase(f'vlab injected non-Exception fault at {site["file"]}:{site["func"]}:{line}')
-            if self.action == 'interrupt':
-                raise KeyboardInterrupt()
             if self.action == 'kill':
                 os.kill(os.getpid(), signal.SIGKILL)
                 time.sleep(30)
@@ -97,6 +109,46 @@ class Injector:
                 time.sleep(120)
                 os._exit(98)
         return None
+
+    # ---- delivery of an arrived interrupt at the next eval-breaker-equivalent event
+    def _delivery_events(self, on):
+        mon = sys.monitoring
+        ev = mon.events
+        try:
+            mon.set_events(TOOL_ID, ev.LINE | ((ev.PY_START | ev.PY_RESUME | ev.JUMP | ev.CALL) if on else 0))
+        except ValueError:
+            pass
+
+    def _deliver(self, code):
+        site = self._pending
+        if site is None or os.getpid() != self.pid or threading.get_ident() != self.tid:
+            return None
+        fn = code.co_filename
+        if fn.startswith(_HARNESS_DIR):
+            return None         # the harness's wrappers are transparent: the program under test has no such frames
+        if code.co_name == '__del__' or (code.co_name in ('_run_finalizers', '__call__') and 'multiprocessing/util.py' in fn):
+            return None         # CPython ignores exceptions (also a real KeyboardInterrupt) raised inside finalizers
+        self._pending = None
+        self._delivery_events(False)
+        where = (fn[len(self.pkg_dir):] if fn.startswith(self.pkg_dir) else 'py:' + os.path.basename(fn)) + ':' + code.co_name
+        self.deliveries[where] = self.deliveries.get(where, 0) + 1
+        site = dict(site, delivered_in=where)
+        self.fired = site
+        if self.on_fire is not None:
+            self.on_fire(site)
+        raise KeyboardInterrupt()
+
+    def _on_start(self, code, offset):
+        if self._pending is not None:
+            return self._deliver(code)
+
+    def _on_jump(self, code, offset, dest):
+        if self._pending is not None and dest < offset:
+            return self._deliver(code)
+
+    def _on_c_return(self, code, offset, func, arg0):
+        if self._pending is not None:
+            return self._deliver(code)
 
     def start(self):
         global _current
@@ -111,6 +163,11 @@ class Injector:
             mon.free_tool_id(TOOL_ID)
             mon.use_tool_id(TOOL_ID, 'vlab')
         mon.register_callback(TOOL_ID, mon.events.LINE, self._cb)
+        if self.action == 'interrupt':
+            mon.register_callback(TOOL_ID, mon.events.PY_START, self._on_start)
+            mon.register_callback(TOOL_ID, mon.events.PY_RESUME, self._on_start)
+            mon.register_callback(TOOL_ID, mon.events.JUMP, self._on_jump)
+            mon.register_callback(TOOL_ID, mon.events.C_RETURN, self._on_c_return)
         mon.set_events(TOOL_ID, mon.events.LINE)
         mon.restart_events()
         self.armed = True
@@ -128,10 +185,12 @@ class Injector:
     def stop(self):
         global _current
         self.armed = False
+        self._pending = None
         mon = sys.monitoring
         try:
             mon.set_events(TOOL_ID, 0)
-            mon.register_callback(TOOL_ID, mon.events.LINE, None)
+            for e in (mon.events.LINE, mon.events.PY_START, mon.events.PY_RESUME, mon.events.JUMP, mon.events.C_RETURN):
+                mon.register_callback(TOOL_ID, e, None)
             mon.free_tool_id(TOOL_ID)
         except ValueError:
             pass
